@@ -2,7 +2,7 @@
 Single retried states (Task, Parallel, Map) x retrier/catcher lists x fault sequences run on the real
 engine with the virtual clock; the request instants, the decisions and the outcome are compared with
 the Lean policy (`decideError`, iterated) and with Asl.run."""
-import json
+import copy, json
 from fractions import Fraction
 import common, explore, enginerun, machgen
 from common import cj, pj
@@ -14,12 +14,53 @@ RESERVED = ["States.Runtime"]      # a worker reporting a reserved name: never r
 EQS = [["States.ALL"], ["A.Err"], ["B.Err", "Custom"], ["States.TaskFailed"], ["States.ALL", "A.Err"], ["Nope"],
        ["States.Runtime"], ["States.Permissions", "A.Err"]]
 WORKER_MS = 10
+MAX_STEPS = 600
+SMALL_SHARE = 0.25       # share of the generated cases run in small-limit mode
+DLE = "States.DataLimitExceeded"
+EQS_SMALL = EQS + [[DLE], [DLE, "A.Err"], ["States.ALL"], [DLE]]
+DATA = {"a": {"b": 1}, "k": [7]}
 
 
-def gen_case(rng, kind, quick):
+def state_output(kind, data, doc):
+    """the output of the retried state S when its worker answers `doc` (the shape of the machines of `gen_case`:
+    ResultPath $.res; Parallel = [task, pass-through], Map over the one item of $.k)"""
+    res = doc if kind == "Task" else ([doc, data] if kind == "Parallel" else [doc for _ in data["k"]])
+    return dict(data, res=res)
+
+
+def reply_doc(kind, data, o):
+    """the document the worker sends for plan entry `o` (enginerun.Plans.worker)"""
+    if o[0] == "err":
+        return {"errorType": o[1], "errorMessage": o[2] if len(o) > 2 else "m"}
+    if len(o) > 1:
+        return o[1]
+    return {"fn": "f", "v": data["k"][0] if kind == "Map" else data}
+
+
+def attempt_error(case, o):
+    """the error with which one attempt of S ends when the worker's answer is plan entry `o`, or None if the
+    attempt succeeds.  In small-limit mode an answer longer than the limit, and a successful answer that makes
+    the output of S longer than the limit (the refused transition), is States.DataLimitExceeded."""
+    lim = case.get("max_data")
+    if lim is None:
+        return o[1] if o[0] == "err" else None
+    doc = reply_doc(case["kind"], case["input"], o)
+    if len(json.dumps(doc)) > lim:
+        return DLE
+    if o[0] == "err":
+        return o[1]
+    if len(json.dumps(state_output(case["kind"], case["input"], doc))) > lim:
+        return DLE
+    return None
+
+
+def gen_case(rng, kind, quick, small=None):
+    """`small`: None, "plain" (the ordinary case under a drawn size limit) or "oversize" (successful answers that
+    make the output of S exceed the limit while its raw input and the answer itself do not; Retry and Catch present)"""
+    eqs = EQS_SMALL if small == "oversize" else EQS
     retry = []
-    for _ in range(rng.randint(0, 3)):
-        r = {"ErrorEquals": rng.choice(EQS)}
+    for _ in range(rng.randint(1 if small == "oversize" else 0, 3)):
+        r = {"ErrorEquals": rng.choice(eqs)}
         if rng.random() < 0.7:
             r["IntervalSeconds"] = rng.choice([1, 2, 3])
         if rng.random() < 0.75:
@@ -28,8 +69,8 @@ def gen_case(rng, kind, quick):
             r["BackoffRate"] = rng.choice([1.0, 1.5, 2.0, 2.5, 0.5])
         retry.append(r)
     catch = []
-    for _ in range(rng.randint(0, 2)):
-        c = {"ErrorEquals": rng.choice(EQS), "Next": "C"}
+    for _ in range(rng.randint(1 if small == "oversize" else 0, 2)):
+        c = {"ErrorEquals": rng.choice(eqs), "Next": "C"}
         if rng.random() < 0.7:
             c["ResultPath"] = rng.choice(["$.err", "$", "$.a.e", None, "$.k[0]"])
         catch.append(c)
@@ -40,6 +81,25 @@ def gen_case(rng, kind, quick):
         seq.append(("ok",))
     if not seq:
         seq = [("ok",)]
+    limit = None
+    if small == "plain":
+        limit = int(round(40 * 10 ** (1.2 * rng.random())))          # 40..630, log-uniform
+    elif small == "oversize":
+        # the catcher's transition carries the Error Output with the engine's Cause text (about 300 characters):
+        # mostly limits above that, so that the placement into the raw input is compared, some below
+        limit = rng.choice([rng.randint(90, 379), rng.randint(380, 900), rng.randint(380, 900)])
+
+        def ok_doc(big):
+            # "big": the answer itself fits (<= limit) but S's output does not; "small": both fit
+            n = (limit - rng.randint(0, 20)) if big else rng.randint(11, 20)
+            return ("ok", {"pad": "x" * (n - 11)})
+        seq = []
+        for _ in range(rng.randint(1, 5 if quick else 9)):
+            r = rng.random()
+            seq.append(ok_doc(True) if r < 0.65 else
+                       (("err", rng.choice(ERRS), rng.choice(["m", ""])) if r < 0.85 else ok_doc(False)))
+        if rng.random() < 0.5:
+            seq.append(ok_doc(False))
     t = {"Type": "Task", "Resource": FN + "f", "End": True}
     if kind == "Task":
         st = dict(t, ResultPath="$.res")
@@ -57,8 +117,11 @@ def gen_case(rng, kind, quick):
         st["Catch"] = catch
     m = {"StartAt": "S", "States": {"S": st, "N": {"Type": "Pass", "Parameters": {"rc.$": "$$.State.Name"}, "ResultPath": "$.after", "End": True},
                                     "C": {"Type": "Pass", "End": True}}}
-    data = {"a": {"b": 1}, "k": [7]}
-    return {"kind": kind, "machine": m, "input": data, "plans": {"f": seq}}
+    data = copy.deepcopy(DATA)
+    case = {"kind": kind, "machine": m, "input": data, "plans": {"f": seq}}
+    if limit is not None:
+        case["max_data"], case["small"] = limit, small
+    return case
 
 
 def model_decisions(case):
@@ -74,27 +137,41 @@ def run(chk):
     n = 500 if quick else 12000
     cases = common.load_corpus("C07")
     for i in range(n):
-        cases.append(gen_case(chk.rng, chk.rng.choice(["Task", "Task", "Parallel", "Map"]), quick))
+        small = None
+        if chk.rng.random() < SMALL_SHARE:
+            small = "oversize" if chk.rng.random() < 0.65 else "plain"
+        cases.append(gen_case(chk.rng, chk.rng.choice(["Task", "Task", "Parallel", "Map"]), quick, small))
     # run the implementation first, collect every model query, ask the driver once
-    runs, lines, spans = [], [], []
+    runs, lines, spans, asked = [], [], [], []
     for case in cases:
-        r = enginerun.run_case(case["machine"], case["input"], case["plans"])
-        obs = {"errors": list(r.errors), "view": c01.impl_view(r), "reqs": [q for q in r.requests if q["queue"] == "f"]}
+        case.setdefault("kind", case["machine"]["States"]["S"]["Type"])
+        # at most 11 attempts of a handful of steps each: a run that is still going after MAX_STEPS is not going to end
+        # (and an engine that re-runs a state on ever growing data would otherwise produce megabytes of requests)
+        r = enginerun.run_case(case["machine"], case["input"], case["plans"], max_data=case.get("max_data"),
+                               max_steps=MAX_STEPS)
+        obs = {"errors": list(r.errors), "view": c01.impl_view(r), "reqs": [q for q in r.requests if q["queue"] == "f"],
+               "refusals": r.refusals, "cause_text_decides": r.cause_text_decides}
         start = len(lines)
-        lines.append(c01.model_line(case["machine"], case["input"], r.exec_arn, r.plans.oracle()))
+        lines.append(c01.model_line(case["machine"], case["input"], r.exec_arn, r.plans.oracle(),
+                                    max_data=case.get("max_data")))
         state_json = model_decisions(case)
         seq = case["plans"]["f"]
         errs = [o for o in seq if o[0] == "err"]
         # the i-th failure is decided at retry count i as long as every earlier one was retried
         for i in range(len(obs["reqs"]) + 1):
             o = seq[i] if i < len(seq) else seq[-1]
-            if o[0] != "err":
+            e = attempt_error(case, o)
+            if e is None:
                 break
-            lines.append("retry\tdecide\t%s\t%s\t%d" % (state_json, pj(o[1]), i))
+            lines.append("retry\tdecide\t%s\t%s\t%d" % (state_json, pj(e), i))
         spans.append((start, len(lines)))
         runs.append(obs)
+        if case.get("max_data") is not None:
+            asked.extend(c01.render_lines(r))
         r.sim.close()
-    answers = common.driver(lines, shards=8)
+    answers = common.driver(lines + [x[0] for x in asked], shards=8)
+    c01.check_render(chk, asked, answers[len(lines):])
+    answers = answers[:len(lines)]
     for case, obs, (a, b) in zip(cases, runs, spans):
         check_case(chk, case, obs, answers[a:b])
     chk.cov["rule"] = ("one retried state (Task, or Parallel / Map around a failing task) with 0-3 retriers and 0-2 catchers "
@@ -103,20 +180,39 @@ def run(chk):
                        "(names incl. reserved ones when reported by the worker) then success or not; run on the real engine on the "
                        "virtual clock; each failure's decision is taken from the Lean policy and the next request instant / the "
                        "catch / the failure is compared; the whole outcome is compared with Asl.run; distinct = distinct "
-                       "(machine, fault sequence)" % (5 if quick else 10))
+                       "(machine, fault sequence, limit); small-limit mode: a quarter of the cases run with the engine's "
+                       "MAX_DATA_LENGTH (state_engine, task_dispatcher) and the model's Env.maxData set to a drawn limit — "
+                       "'plain': the ordinary case under a limit of 40-630 characters; 'oversize': Retry and Catch present "
+                       "(ErrorEquals also naming States.DataLimitExceeded), limit 90-900, and a sequence of answers of which "
+                       "most fit the limit themselves but make the output of the Task / Parallel / Map exceed it while its raw "
+                       "input does not (the refused transition), mixed with errors and small answers: re-run on the raw input, "
+                       "retry count kept by Parallel/Map, Error Output placed into the raw input are compared through the "
+                       "request payloads/instants and the outcome" % (5 if quick else 10))
 
 
 def check_case(chk, case, obs, answers):
     seq = case["plans"]["f"]
     st = case["machine"]["States"]["S"]
-    key = cj([case["machine"], seq])
-    nontrivial = any(o[0] == "err" for o in seq)
+    lim = case.get("max_data")
+    key = cj([case["machine"], seq, lim])
+    nontrivial = any(attempt_error(case, o) is not None for o in seq)
     chk.count(key, nontrivial)
     chk.dist("kind.%s" % case["kind"])
-    chk.dist("faults.%d" % sum(1 for o in seq if o[0] == "err"))
+    chk.dist("faults.%d" % sum(1 for o in seq if attempt_error(case, o) is not None))
     cview = {"machine": case["machine"], "input": case["input"], "plans": case["plans"], "kind": case["kind"]}
+    if lim is not None:
+        cview["max_data"], cview["small"] = lim, case.get("small")      # a replay re-applies the limit
+        chk.dist("smalllimit.cases")
+        chk.dist("smalllimit.%s.cases" % case.get("small"))
+        if obs["refusals"] or any(len(json.dumps(reply_doc(case["kind"], case["input"], o))) > lim for o in seq[:len(obs["reqs"])]):
+            chk.dist("smalllimit.hit")
     if obs["errors"]:
         chk.report("impl-violates-law", cview, impl={"errors": obs["errors"][:1]}, law="no exception escapes a handler")
+        return
+    if obs["cause_text_decides"]:
+        # a size check (in practice: the catcher's transition, which carries the Error Output) fell between the data's
+        # length with the engine's Cause text and with the masked one: the model cannot tell its verdict
+        chk.dist("smalllimit.cause_text_decides.not_compared")
         return
     # --- the whole outcome against the reference semantics
     a = answers[0].split("\t")
@@ -124,11 +220,22 @@ def check_case(chk, case, obs, answers):
         m = json.loads(a[1])
         iv, mv = obs["view"], c01.model_view(m)
         if mv["status"] in ("SUCCEEDED", "FAILED") and cj(iv) != cj(mv):
+            if iv["status"] not in ("SUCCEEDED", "FAILED"):
+                iv = dict(iv, note="still running after %d steps" % MAX_STEPS)
             chk.report("impl-differs-from-spec", cview, impl=iv, model=mv,
                        law="outcome (status, output incl. the placed Error Output and the reset retry count, error name) equals Asl.run")
             return
-    # --- the decisions and their timing
     reqs = obs["reqs"]
+    if lim is not None:
+        # --- the law on the engine's own requests: every (re-)run of S works on S's raw input — the worker is asked
+        # about the execution input (Task, Parallel) / the item (Map) each time, never about an earlier output
+        want = case["input"]["k"][0] if case["kind"] == "Map" else case["input"]
+        for i, q in enumerate(reqs):
+            if cj(q["payload"]) != cj(want):
+                chk.report("impl-violates-law", dict(cview, attempt=i), impl={"payload": q["payload"]}, model={"payload": want},
+                           law="a retried state is re-run on its original raw input")
+                return
+    # --- the decisions and their timing
     decisions = [x.split("\t") for x in answers[1:]]
     t_expected = None
     for i, q in enumerate(reqs):
@@ -138,10 +245,16 @@ def check_case(chk, case, obs, answers):
                        law="the k-th retry is issued IntervalSeconds x BackoffRate^k seconds after the failure (never early, not late)")
             return
         o = seq[i] if i < len(seq) else seq[-1]
-        if o[0] != "err" or i >= len(decisions):
+        e = attempt_error(case, o)
+        if e is None or i >= len(decisions):
             break
         ans = decisions[i]
         chk.dist("decision.%s" % ans[0])
+        if lim is not None and e == DLE:
+            over = len(json.dumps(reply_doc(case["kind"], case["input"], o))) > lim
+            chk.dist("smalllimit.%s.%s.%s" % (case["kind"], "reply_over_limit" if over else "output_refused", ans[0]))
+            if ans[0] == "caught":
+                chk.dist("smalllimit.caught.ResultPath=%s" % ans[2])
         if ans[0] == "retry":
             d = Fraction(ans[1])
             if int(ans[2]) != i + 1:
@@ -169,8 +282,11 @@ def replay(chk, path):
     with open(path) as f:
         rp = json.load(f)
     c = rp["case"]
-    r = enginerun.run_case(c["machine"], c["input"], {k: [tuple(o) for o in v] for k, v in c["plans"].items()})
+    r = enginerun.run_case(c["machine"], c["input"], {k: [tuple(o) for o in v] for k, v in c["plans"].items()},
+                           max_data=c.get("max_data"))
+    print("limit:", c.get("max_data"), "refused:", r.refusals, "cause text decides:", r.cause_text_decides)
     print("impl :", cj(c01.impl_view(r)), "requests at", [q["t"] for q in r.requests])
-    print("model:", common.driver([c01.model_line(c["machine"], c["input"], r.exec_arn, r.plans.oracle())])[0][:600])
+    print("model:", common.driver([c01.model_line(c["machine"], c["input"], r.exec_arn, r.plans.oracle(),
+                                                  max_data=c.get("max_data"))])[0][:600])
     r.sim.close()
     return 0
